@@ -19,7 +19,8 @@ using rt::win;
 static long g_eval = 0, g_over = 0, g_fit = 0;
 static std::vector<std::string> g_fail, g_samples;
 static std::string g_only;
-static const long MAXV = (long)std::numeric_limits<ST>::max();
+static const long MAXV = kFixed ? (long)N : (long)std::numeric_limits<ST>::max();  // the limit: N for a fixed vector
+static const int EXPECT_KIND = kFixed ? 1 : 2;                                       // out_of_range / overflow_error
 
 static void build(V &v, std::vector<int> &m, long s) {
   for (long i = 0; i < s; ++i) {
@@ -33,13 +34,13 @@ static std::vector<int> vals(const V &v) {
   return r;
 }
 
-enum Kind { PUSH_C, PUSH_M, EMPLACE_BACK, INS_C, INS_M, EMPLACE, INS_N, INS_RANGE, INS_IL3, APPEND_N, APPEND_NV, APPEND_RANGE, RESIZE, RESIZE_V, ASSIGN_RANGE, KCOUNT };
-static const char *kn[] = {"push_back_c", "push_back_m", "emplace_back", "insert_c", "insert_m", "emplace", "insert_n", "insert_range", "insert_il3", "append_n", "append_nv", "append_range", "resize", "resize_v", "assign_range"};
+enum Kind { PUSH_C, PUSH_M, EMPLACE_BACK, INS_C, INS_M, EMPLACE, INS_N, INS_RANGE, INS_INPUT, INS_IL3, APPEND_N, APPEND_NV, APPEND_RANGE, APPEND_INPUT, RESIZE, RESIZE_V, ASSIGN_RANGE, ASSIGN_INPUT, KCOUNT };
+static const char *kn[] = {"push_back_c", "push_back_m", "emplace_back", "insert_c", "insert_m", "emplace", "insert_n", "insert_range", "insert_input", "insert_il3", "append_n", "append_nv", "append_range", "append_input", "resize", "resize_v", "assign_range", "assign_input"};
 
 /// one grid point: returns false if the point is not meaningful (skipped)
-static void point(int k, long s, long p, long n) {
+static void point(int k, long s, long p, long n, bool shrunk) {
   char id[128];
-  std::snprintf(id, sizeof id, "%s|s=%ld|p=%ld|n=%ld", kn[k], s, p, n);
+  std::snprintf(id, sizeof id, "%s|s=%ld|p=%ld|n=%ld%s", kn[k], s, p, n, shrunk ? "|exactcap" : "");
   if (!g_only.empty() && g_only != id) return;
   vf::L().reset();
   vf::AL().reset();
@@ -47,6 +48,7 @@ static void point(int k, long s, long p, long n) {
     V v;
     std::vector<int> m;
     build(v, m, s);
+    if (shrunk) v.shrink_to_fit();  // capacity == size: the failing call has to reallocate before it fails
     const long live0 = vf::L().live();
     const int blocks0 = vf::AL().n;
     const long cap0 = (long)v.capacity();
@@ -54,7 +56,9 @@ static void point(int k, long s, long p, long n) {
     std::vector<int> src;
     for (long i = 0; i < n; ++i) src.push_back(200 + (int)i);
     std::vector<T> srcT;
+    srcT.reserve(src.size() + 1);
     for (int x : src) srcT.push_back(E::make(x));
+    srcT.push_back(E::make(-5));  // sentinel read only by a buggy over-run of a single-pass range
     T t = E::make(150);
     long added = 0;
     const long live_harness = vf::L().live() - live0;  // elements held by the harness (sources, t)
@@ -67,11 +71,31 @@ static void point(int k, long s, long p, long n) {
         case INS_M: added = 1; v.insert(v.begin() + p, std::move(t)); m.insert(m.begin() + p, 150); break;
         case EMPLACE: added = 1; v.emplace(v.begin() + p, std::move(t)); m.insert(m.begin() + p, 150); break;
         case INS_N: added = n; v.insert(v.begin() + p, (typename V::size_type)n, t); m.insert(m.begin() + p, n, 150); break;
-        case INS_RANGE: added = n; v.insert(v.begin() + p, srcT.begin(), srcT.end()); m.insert(m.begin() + p, src.begin(), src.end()); break;
+        case INS_RANGE: added = n; v.insert(v.begin() + p, srcT.begin(), srcT.begin() + n); m.insert(m.begin() + p, src.begin(), src.end()); break;
+        case INS_INPUT: {
+          added = n;
+          rt::SPState<T> st{srcT.data(), (int)n, 0, false};
+          v.insert(v.begin() + p, rt::SinglePass<T>(&st), rt::SinglePass<T>());
+          m.insert(m.begin() + p, src.begin(), src.end());
+        } break;
+        case APPEND_INPUT: {
+          added = n;
+          rt::SPState<T> st{srcT.data(), (int)n, 0, false};
+          v.append(rt::SinglePass<T>(&st), rt::SinglePass<T>());
+          m.insert(m.end(), src.begin(), src.end());
+        } break;
+        case ASSIGN_INPUT: {
+          std::vector<T> big;
+          for (long i = 0; i < s + n + 1; ++i) big.push_back(E::make(7));
+          added = n;
+          rt::SPState<T> st{big.data(), (int)(s + n), 0, false};
+          v.assign(rt::SinglePass<T>(&st), rt::SinglePass<T>());
+          m.assign(s + n, 7);
+        } break;
         case INS_IL3: added = 3; v.insert(v.begin() + p, {t, t, t}); m.insert(m.begin() + p, 3, 150); break;
         case APPEND_N: added = n; v.append((typename V::size_type)n); m.resize(m.size() + n, 0); break;
         case APPEND_NV: added = n; v.append((typename V::size_type)n, t); m.resize(m.size() + n, 150); break;
-        case APPEND_RANGE: added = n; v.append(srcT.begin(), srcT.end()); m.insert(m.end(), src.begin(), src.end()); break;
+        case APPEND_RANGE: added = n; v.append(srcT.begin(), srcT.begin() + n); m.insert(m.end(), src.begin(), src.end()); break;
         case RESIZE: added = n; v.resize((typename V::size_type)(s + n)); m.resize(s + n, 0); break;
         case RESIZE_V: added = n; v.resize((typename V::size_type)(s + n), t); m.resize(s + n, 150); break;
         case ASSIGN_RANGE: {
@@ -91,7 +115,7 @@ static void point(int k, long s, long p, long n) {
     if (exceeds) {
       ++g_over;
       if (!W().exc) err = "exceeding the size_type maximum did not throw";
-      else if (W().exc_kind != 2) err = "wrong exception type (kind " + std::to_string(W().exc_kind) + "), expected std::overflow_error";
+      else if (W().exc_kind != EXPECT_KIND) err = "wrong exception type (kind " + std::to_string(W().exc_kind) + "), expected " + (kFixed ? "std::out_of_range" : "std::overflow_error");
       else {
         if (vals(v) != before) err = "contents changed by the failed call";
         else if ((long)v.size() != s) err = "size changed by the failed call";
@@ -133,12 +157,14 @@ int main(int argc, char **argv) {
   for (long s = std::max<long>(0, MAXV - 4); s <= MAXV; ++s) {
     for (int k = 0; k < KCOUNT; ++k) {
       const bool positional = k >= INS_C && k <= INS_IL3;
-      const bool counted = k == INS_N || k == INS_RANGE || k >= APPEND_N;
+      const bool counted = k == INS_N || k == INS_RANGE || k == INS_INPUT || k >= APPEND_N;
       for (long p = 0; p <= (positional ? s : 0); ++p)
         for (long n = (counted ? 0 : 1); n <= (counted ? 8 : 1); ++n) {
-          if ((k == APPEND_N || k == APPEND_NV) && n > MAXV) continue;
-          if ((k == RESIZE || k == RESIZE_V) && s + n > MAXV) continue;  // not expressible through size_type
-          point(k, s, p, n);
+          const long TMAX = (long)std::numeric_limits<ST>::max();
+          if ((k == APPEND_N || k == APPEND_NV) && n > TMAX) continue;
+          if ((k == RESIZE || k == RESIZE_V) && s + n > TMAX) continue;  // not expressible through size_type
+          point(k, s, p, n, false);
+          if (kDyn && (counted || p == 0 || p == s)) point(k, s, p, n, true);
         }
     }
   }
